@@ -44,6 +44,7 @@ CHECK_DEADLOCK FALSE
 
 
 GATES = {}
+KEEP = [True]       # the source object keeps what it has handed out (two scripts in three); otherwise a forgotten stream is really gone
 
 
 def make_target():
@@ -69,8 +70,8 @@ def make_target():
                 if raise_at == n + 1:
                     raise ValueError("generator failed at the end")
             it = g()
-            self.handed_out = self.handed_out[-5:] + [it]
-            self.newest = it
+            self.handed_out = (self.handed_out[-5:] + [it]) if KEEP[0] else []
+            self.newest = it if KEEP[0] else None
             return it
 
         @P.expose
@@ -86,8 +87,8 @@ def make_target():
         @P.expose
         def lst(self, i, n):
             it = iter([i * 100 + j for j in range(1, n + 1)])
-            self.handed_out = self.handed_out[-5:] + [it]
-            self.newest = it
+            self.handed_out = (self.handed_out[-5:] + [it]) if KEEP[0] else []
+            self.newest = it if KEEP[0] else None
             return it
 
         @P.expose
@@ -129,6 +130,7 @@ def run_scripts(scripts, servertype, settings, unit=1):
         for script in scripts:
             sc.set_budget(30000)
             d.streaming_responses.clear()
+            KEEP[0] = len(traces) % 3 != 2
             # every other script's client marks all its calls with one correlation id of its own choosing
             callcontext.current_context.correlation_id = uuid.uuid4() if len(traces) % 2 else None
             tr = [{"e": "cfg", "lifetime": lifetime * unit, "linger": linger * unit, "streaming": streaming, "server": servertype}]
